@@ -122,7 +122,7 @@ def generateReport (s : Stream) (now : Int) : RR × Stream :=
      lsr := s.lsr
      delay := match s.lsrTime with
        | none => 0
-       | some t => toUint32 (mul (seconds (now - t)) 65536) },
+       | some t => toUint32 (mul (seconds (max (now - t) 0)) 65536) },
    { s with totalLost := totalLost2, lastReport := s.last })
 
 /-! The interceptor: `streams` (a sync.Map keyed by SSRC) as a list kept sorted by SSRC. -/
